@@ -35,6 +35,7 @@ open Util FrameRead RespSpec
         cells, the final error with its fields, the trace ids the Tracer got. Model: Model/RowsPaged.lean;
         specification: Driver.C04.pagesSpec from the logical responses alone (C04_pages_scan / C04_pages_scanner,
         C04_query_view) — must agree
+  qone <api> <fv> <ndests> <logical response> WIRE <wire>   Query.Scan / ScanCAS / MapScanCAS on ONE response (model only)
   pagesx ...   the same, model only (answers that are no result / error, UNPREPARED, void in the middle, pages of
         different shapes, tuple<> columns, a last page that announces more) -/
 
@@ -813,6 +814,36 @@ def pagesSpec (api : String) (rs : List LResp) : Option String :=
        | [], e => some ("ok P0(" ++ specEmptyView r ++ ")" ++ tail (if scanner then [] else ["$"]) s!"E({e.code},{toHex msg},{dErr (viewErr e)})"))
     | _ => none
 
+
+/-! ### the one-row conveniences -/
+
+open Paged in
+def dQErr : QErr → String
+  | .nil => "nil"
+  | .notFound => "notfound"
+  | .iter e => dIterErr (some e)
+
+open Rows Paged in
+/-- `qone <api> <fv> <ndests> <logical response> WIRE <wire>` -/
+def qoneModel (api : String) (fv nd : Nat) (wire : FrameRead.Bytes) : String :=
+  match execute fv true [wire] with
+  | none => "crash:go"
+  | some (q, _) =>
+    match api with
+    | "scan" =>
+      (match queryScan q (List.replicate nd true) with
+       | none => "crash:go"
+       | some (calls, e) => "ok rows:[" ++ dCalls calls ++ "] end:" ++ dQErr e)
+    | "scancas" =>
+      (match scanCAS q nd with
+       | none => "crash:go"
+       | some (a, calls, e) => s!"ok applied:{a} rows:[" ++ dCalls calls ++ "] end:" ++ dQErr e)
+    | "mapscancas" =>
+      (match mapScanCAS q with
+       | none => "crash:go"
+       | some (a, m, e) => s!"ok applied:{a} map:" ++ dMap (m.map (fun kv => (kv.1, toHex kv.2))) ++ " end:" ++ dQErr e)
+    | _ => "bad-op"
+
 def tPages : TP (List (Nat × LResp × FrameRead.Bytes)) := do
   let k ← tNat
   tMany (do
@@ -937,6 +968,10 @@ def step (_ : Unit) (ws : List String) : Unit × String :=
          | none => "not-wf-pages"
          | some s => if s == m then m else "MODEL-SPEC-MISMATCH model=" ++ m ++ " spec=" ++ s
      | _, _ => "bad-op")
+  | "qone" :: api :: fv :: nd :: rest =>
+    (match fv.toNat?, nd.toNat?, rest.getLast?.bind parseHex with
+     | some fv, some nd, some wire => qoneModel api fv nd wire
+     | _, _, _ => "bad-op")
   | _ => "bad-op")
 
 def init : Unit := ()
